@@ -29,7 +29,7 @@ ASSUMPTIONS = [
 ]
 OUTSIDE = ["YAML text rewrites", "fresh process / PYTHONHASHSEED / working directory (process-level, no symbolic formulation)", "mappings with more than 5 keys per level"]
 
-MAPPINGS = {"node0": 2, "node1": 2, "node2": 6, "opts1": 6, "opts2": 2, "variables": 6, "parameters": 2, "sweepkeys": 5, "runspace": 4, "rs_context": 2}
+MAPPINGS = {"node0": 2, "node1": 2, "node2": 6, "opts1": 6, "opts2": 2, "dict_in_list": 2, "variables": 6, "parameters": 2, "sweepkeys": 5, "runspace": 4, "rs_context": 2}
 
 
 def setup_symbolic() -> None:
@@ -175,11 +175,11 @@ def _start_ids(rec, model: bool):
     }
 
 
-def _p3(v0: int, v1: int, v2: int, v3: int, v4: int, v5: int, v6: int, v7: int, t0: int, t1: int, with_sweep: bool):
-    return _p3_body([v0, v1, v2, v3, v4, v5, v6, v7, 0, 0], [t0, t1], with_sweep, True)
+def _p3(v0: int, v1: int, v2: int, v3: int, v4: int, v5: int, v6: int, v7: int, t0: int, t1: int, with_sweep: bool, two_sweeps: bool):
+    return _p3_body([v0, v1, v2, v3, v4, v5, v6, v7, 0, 0], [t0, t1], with_sweep, True, two_sweeps)
 
 
-def _p3_body(V, tvals, with_sweep, model: bool):
+def _p3_body(V, tvals, with_sweep, model: bool, two_sweeps: bool = False):
     from semantiva.context_processors import ContextType
     from semantiva.pipeline import Payload, Pipeline
     from vt import lib
@@ -189,7 +189,7 @@ def _p3_body(V, tvals, with_sweep, model: bool):
     model = bool(ihash.INSTALLED)
     if model:
         ihash.reset()
-    cfg = idcfg.config(V, tvals, {}) if with_sweep else idcfg.plain_nodes(V)
+    cfg = idcfg.config(V, tvals, {}, two_sweeps=bool(two_sweeps)) if with_sweep else idcfg.plain_nodes(V)
     ins = idcfg.identities(cfg, model=model)
     tr = MemTrace(stop_after_start=True)
     p = Pipeline([dict(n) for n in cfg], logger=lib.QUIET, trace=tr)
@@ -273,8 +273,8 @@ def obligations(tier: str) -> List[Ob]:
         Ob("C04.P2", _make_p2, _replay_p2, params=[(i * step, min(npairs, (i + 1) * step)) for i in range(shards)], budget=600, engine="B",
            bound="%d pairs of sweep expressions one AC move apart over {t, s, 2} incl. nested chains; z3 proves each pair equivalent; real identities (real hashes) compared" % npairs,
            targets=["semantiva/metadata/semantic_id.py:_dump_ast_commutative", "semantiva/inspection/builder.py:build_inspection_payload"]),
-        Ob("C04.P3", lambda _p: _p3, lambda _p, a: _wrap(_p3_body([a["v%d" % i] for i in range(8)] + [0, 0], [a["t0"], a["t1"]], a["with_sweep"], False)), budget=300, per_path=60,
-           bound="configuration with/without a sweep node (symbolic flag), 8 int values + 2 sequence elements symbolic; inspect payload vs pipeline_start (pipeline_id, semantic_id, config_id, node uuids, node semantic ids)",
+        Ob("C04.P3", lambda _p: _p3, lambda _p, a: _wrap(_p3_body([a["v%d" % i] for i in range(8)] + [0, 0], [a["t0"], a["t1"]], a["with_sweep"], False, a.get("two_sweeps", False))), budget=300, per_path=60,
+           bound="configuration without / with one / with two sweep nodes of the same kind (symbolic flags), 8 int values + 2 sequence elements symbolic; inspect payload vs pipeline_start (pipeline_id, semantic_id, config_id, node uuids, node semantic ids)",
            targets=["semantiva/execution/orchestrator/orchestrator.py:SemantivaOrchestrator.execute", "semantiva/inspection/builder.py:build_inspection_payload"], stubs=list(STUBS)),
         Ob("C04.P4", lambda _p: _p4, lambda _p, a: _wrap(_p4_body([a["v0"], a["v1"], 0, 0, 0, 0, 0, a["v7"], 0, 0], [1, 2], a["with_sweep"], a["other_first"], False)), budget=300, per_path=60,
            bound="one Pipeline object: identity at construction, at pipeline_start of run 1 and run 2, and recomputed afterwards; optionally another pipeline traced first; with/without sweep node; values symbolic",
